@@ -1,3 +1,4 @@
+import AquaVerif.Proofs.RunLift
 import AquaVerif.Proofs.WaterDay
 /-
 Property C02 — rain and irrigation are fully partitioned at the surface.
@@ -149,5 +150,53 @@ example : ∃ out, waterDay DayExample.Fq DayExample.Wq DayExample.fmq DayExampl
   rw [this]
   simp only [irrApplied, hirr, DayExample.Dq, DayExample.Wq]
   norm_num
+
+/-! ### every day of every run (`Proofs/RunLift.lean`) -/
+
+/-- **Run level.** On every simulated day of every run reported infiltration plus reported runoff
+equals the rain of the weather table for that day plus the efficiency-adjusted irrigation
+application (`Irr·AppEff/100` in season, else 0).  Premises: the effective curve number of the
+configuration lies in `(0, 100]` (`CfgSurfOK`) and the weather table has no negative rain
+(`RainOK`). -/
+theorem run_partition {F : Fn α} {T : TrigFn α} {cfg : RunCfg α} {s : RunState α}
+    (hS : CfgSurfOK F cfg) (hW : RainOK cfg) (hr : RunReach F T cfg s) :
+    ∀ d ∈ s.daysRev,
+      d.r.flux.infl + d.r.flux.runoff =
+        (cfg.weather d.D.tsc).rain + irrApplied d.P.W d.D.water d.r.water :=
+  Aqua.run_partition hS hW hr
+
+/-- **Run level.** Reported runoff is never negative and never exceeds rain + applied irrigation +
+the water ponded at the start of the day (`CfgOK`; with a water table the capillary-rise residual
+`ResidualW`). -/
+theorem run_runoff_bounds {F : Fn α} {T : TrigFn α} {cfg : RunCfg α} {s : RunState α}
+    (hC : CfgOK F T cfg) (hS : CfgSurfOK F cfg) (hW : RainOK cfg) (hr : RunReach F T cfg s)
+    (hR : ∀ d ∈ s.daysRev, ResidualW d) :
+    ∀ d ∈ s.daysRev,
+      0 ≤ d.r.flux.runoff ∧
+      d.r.flux.runoff ≤
+        (cfg.weather d.D.tsc).rain + irrApplied d.P.W d.D.water d.r.water + d.st.pond :=
+  Aqua.run_runoff_bounds hC hS hW hr hR
+
+/-- **Run level.** Reported infiltration is negative only on a day without (effective) bunds on
+which ponded water is released, and then by no more than the water ponded at the start of the day.
+Needs the bund invariant of the run (`run_pondInv`): premises of `C04.run_flux_closed` plus
+`BundOK` (equal bund heights in `FieldMngt` and `FallowFieldMngt` when both have bunds). -/
+theorem run_negative_infiltration_only_on_bund_removal {F : Fn α} {T : TrigFn α}
+    {cfg : RunCfg α} {s : RunState α} {A : α} (hC : CfgOK F T cfg) (hT : CfgTrOK F cfg A)
+    (hJ : CfgRwOK F cfg) (hE : CfgEsOK cfg) (hW : WeatherOK F cfg) (hB : BundOK cfg)
+    (hr : RunReach F T cfg s) (hR : ∀ d ∈ s.daysRev, ResidualW d) :
+    ∀ d ∈ s.daysRev, d.r.flux.infl < 0 →
+      (d.P.fm.bunds = false ∨ d.P.fm.zBund ≤ 0.001) ∧ 0 < d.st.pond ∧
+        -d.r.flux.infl ≤ d.st.pond :=
+  Aqua.run_negative_infiltration hC hT hJ hE hW hB hr hR
+
+/-- **Run level.** On a day without rain, without irrigation and with nothing ponded, infiltration
+and runoff are both zero. -/
+theorem run_dry_day {F : Fn α} {T : TrigFn α} {cfg : RunCfg α} {s : RunState α}
+    (hC : CfgOK F T cfg) (hS : CfgSurfOK F cfg) (hr : RunReach F T cfg s)
+    (hR : ∀ d ∈ s.daysRev, ResidualW d) :
+    ∀ d ∈ s.daysRev, (cfg.weather d.D.tsc).rain = 0 → d.r.water.irr = 0 → d.st.pond = 0 →
+      d.r.flux.infl = 0 ∧ d.r.flux.runoff = 0 :=
+  Aqua.run_dry_day hC hS hr hR
 
 end Aqua.C02
